@@ -102,6 +102,19 @@ def exprOp : K → Option BinOp
   | .or_ => some .or_ | .xor_ => some .xor_
   | _ => none
 
+def andOp : K → Option BinOp
+  | .and_ => some .and_
+  | _ => none
+
+/-- the operator tokens each loop accepts (the masks of `expr`, `andexpr`, `relexpr`, `sexpr`, `term`) -/
+def opAtLevel : Nat → K → Option BinOp
+  | 0 => exprOp
+  | 1 => andOp
+  | 2 => relOp
+  | 3 => sexprOp
+  | 4 => termOp
+  | _ => fun _ => none
+
 /-- enumerators that are statement keywords / editor commands: `factor` answers them with a syntax error
 (its `default:` branch); every other unknown enumerator is a function outside the model -/
 def stmtOnlyOther (n : String) : Bool :=
@@ -257,108 +270,47 @@ def pArgsTail : Nat → List (Tok α) → PRes α (Args α)
       | .error e => .error e
       | .ok r => .ok (.nil, r)
 
-/-- `PBasic::upexpr`: `factor [ ^ upexpr ]` (right associative) -/
-def pUp : Nat → List (Tok α) → PRes α (Expr α)
-  | 0, _ => .error .fuel
-  | fuel + 1, ts =>
-    match pFactor fuel ts with
-    | .error e => .error e
-    | .ok (a, r) =>
-      if headIs r .up then
-        match pUp fuel (r.drop 1) with
-        | .error e => .error e
-        | .ok (b, r') => .ok (.bin .up a b, r')
-      else .ok (a, r)
-
-/-- loop of `term`: `( (*|/|MOD) upexpr )*`, left associative -/
-def pTermLoop : Nat → Expr α → List (Tok α) → PRes α (Expr α)
+/-- the binary levels by number: 0 `expr` (OR XOR), 1 `andexpr` (AND), 2 `relexpr`, 3 `sexpr` (+ -),
+4 `term` (* / MOD), 5 `upexpr` (^), 6 `factor`.
+`pLvl fuel l` is the C function of level `l`: for `l ≤ 4` "operand of level l+1, then the loop of level l"
+(left associative), for `l = 5` `factor [ ^ upexpr ]` (right associative), for `l ≥ 6` `factor`. -/
+def pLvl : Nat → Nat → List (Tok α) → PRes α (Expr α)
   | 0, _, _ => .error .fuel
-  | fuel + 1, acc, ts =>
-    match headOp termOp ts with
-    | some op =>
-      (match pUp fuel (ts.drop 1) with
-       | .error e => .error e
-       | .ok (b, r) => pTermLoop fuel (.bin op acc b) r)
-    | none => .ok (acc, ts)
-
-def pTerm : Nat → List (Tok α) → PRes α (Expr α)
-  | 0, _ => .error .fuel
-  | fuel + 1, ts =>
-    match pUp fuel ts with
-    | .error e => .error e
-    | .ok (a, r) => pTermLoop fuel a r
-
-def pSexprLoop : Nat → Expr α → List (Tok α) → PRes α (Expr α)
-  | 0, _, _ => .error .fuel
-  | fuel + 1, acc, ts =>
-    match headOp sexprOp ts with
-    | some op =>
-      (match pTerm fuel (ts.drop 1) with
-       | .error e => .error e
-       | .ok (b, r) => pSexprLoop fuel (.bin op acc b) r)
-    | none => .ok (acc, ts)
-
-def pSexpr : Nat → List (Tok α) → PRes α (Expr α)
-  | 0, _ => .error .fuel
-  | fuel + 1, ts =>
-    match pTerm fuel ts with
-    | .error e => .error e
-    | .ok (a, r) => pSexprLoop fuel a r
-
-def pRelLoop : Nat → Expr α → List (Tok α) → PRes α (Expr α)
-  | 0, _, _ => .error .fuel
-  | fuel + 1, acc, ts =>
-    match headOp relOp ts with
-    | some op =>
-      (match pSexpr fuel (ts.drop 1) with
-       | .error e => .error e
-       | .ok (b, r) => pRelLoop fuel (.bin op acc b) r)
-    | none => .ok (acc, ts)
-
-def pRel : Nat → List (Tok α) → PRes α (Expr α)
-  | 0, _ => .error .fuel
-  | fuel + 1, ts =>
-    match pSexpr fuel ts with
-    | .error e => .error e
-    | .ok (a, r) => pRelLoop fuel a r
-
-def pAndLoop : Nat → Expr α → List (Tok α) → PRes α (Expr α)
-  | 0, _, _ => .error .fuel
-  | fuel + 1, acc, ts =>
-    if headIs ts .and_ then
-      match pRel fuel (ts.drop 1) with
+  | fuel + 1, l, ts =>
+    if l ≥ 6 then pFactor fuel ts
+    else if l = 5 then
+      match pLvl fuel 6 ts with
       | .error e => .error e
-      | .ok (b, r) => pAndLoop fuel (.bin .and_ acc b) r
-    else .ok (acc, ts)
+      | .ok (a, r) =>
+        if headIs r .up then
+          match pLvl fuel 5 (r.drop 1) with
+          | .error e => .error e
+          | .ok (b, r') => .ok (.bin .up a b, r')
+        else .ok (a, r)
+    else
+      match pLvl fuel (l + 1) ts with
+      | .error e => .error e
+      | .ok (a, r) => pLoop fuel l a r
 
-def pAnd : Nat → List (Tok α) → PRes α (Expr α)
-  | 0, _ => .error .fuel
-  | fuel + 1, ts =>
-    match pRel fuel ts with
-    | .error e => .error e
-    | .ok (a, r) => pAndLoop fuel a r
-
-def pExprLoop : Nat → Expr α → List (Tok α) → PRes α (Expr α)
-  | 0, _, _ => .error .fuel
-  | fuel + 1, acc, ts =>
-    match headOp exprOp ts with
+/-- the `while` loop of `term` / `sexpr` / `relexpr` / `andexpr` / `expr` -/
+def pLoop : Nat → Nat → Expr α → List (Tok α) → PRes α (Expr α)
+  | 0, _, _, _ => .error .fuel
+  | fuel + 1, l, acc, ts =>
+    match headOp (opAtLevel l) ts with
     | some op =>
-      (match pAnd fuel (ts.drop 1) with
+      (match pLvl fuel (l + 1) (ts.drop 1) with
        | .error e => .error e
-       | .ok (b, r) => pExprLoop fuel (.bin op acc b) r)
+       | .ok (b, r) => pLoop fuel l (.bin op acc b) r)
     | none => .ok (acc, ts)
 
 /-- `PBasic::expr` -/
 def pExpr : Nat → List (Tok α) → PRes α (Expr α)
   | 0, _ => .error .fuel
-  | fuel + 1, ts =>
-    match pAnd fuel ts with
-    | .error e => .error e
-    | .ok (a, r) => pExprLoop fuel a r
+  | fuel + 1, ts => pLvl fuel 0 ts
 end
 
-/-- fuel that always suffices: every token is consumed after at most 16 nested calls -/
-def parseFuel (ts : List (Tok α)) : Nat := 16 * ts.length + 32
+/-- fuel that always suffices: every token is consumed after at most 20 nested calls -/
+def parseFuel (ts : List (Tok α)) : Nat := 20 * ts.length + 40
 
 def parseExpr (ts : List (Tok α)) : PRes α (Expr α) := pExpr (parseFuel ts) ts
 def parseFactor (ts : List (Tok α)) : PRes α (Expr α) := pFactor (parseFuel ts) ts
